@@ -369,6 +369,14 @@ class CallMixin:
         return self.call_value(fn, args, kwargs, path, e)
 
     def call_value(self, fn, args, kwargs, path, node):
+        if isinstance(fn, sv.SUnion):
+            # calling None raises TypeError: the None alternative becomes a safety obligation
+            keep = [(g, x) for g, x in fn.alts if not isinstance(x, sv.SNone)]
+            for g, x in fn.alts:
+                if isinstance(x, sv.SNone):
+                    self.safe(path, "none", sv.Not(g), node)
+            if len(keep) == 1:
+                fn = keep[0][1]
         if isinstance(fn, sv.SPy):
             w = fn.what
             if w == "builtin":
